@@ -311,7 +311,7 @@ fn gen_behaviour(rng: &mut Rng, class: &str) -> Beh {
             Beh::AnyJson { code: 200, text, model: j.to_sexp().render() }
         }
         "garbage" => {
-            let g = ["", "<html><body>502</body></html>", "{\"data\": {\"__schema\": ", "{} trailing", "undefined", "{'single': 1}", "\u{feff}{}x", "[1,2,"];
+            let g = ["", "<html><body>502</body></html>", "{\"data\": {\"__schema\": ", "{} trailing", "undefined", "{'single': 1}", "\u{feff}{}x", "[1,2,", INVALID_UTF8_MARKER];
             Beh::Garbage { text: rng.pick(&g).to_string() }
         }
         "4xx-json" | "4xx-text" | "5xx-json" | "5xx-text" => {
@@ -438,10 +438,19 @@ fn model_behaviour(b: &Beh) -> Result<Sexp, String> {
     })
 }
 
+/// marker text of the garbage behaviour whose body is JSON-shaped but not valid UTF-8
+const INVALID_UTF8_MARKER: &str = "<<json with invalid utf-8 inside a string>>";
+
 fn play_of(b: &Beh) -> Option<Play> {
     let ct = "application/json".to_string();
     Some(match b {
-        Beh::SchemaJson { code, text, .. } | Beh::AnyJson { code, text, .. } => Play::Reply { code: *code, content_type: ct, body: text.clone().into_bytes() },
+        Beh::SchemaJson { code, text, .. } | Beh::AnyJson { code, text, .. } => {
+            // JSON is UTF-8 whatever a `charset` parameter claims (RFC 8259): the label must not change what is written
+            let labels = ["application/json", "application/json; charset=utf-8", "application/json; charset=ISO-8859-1", "application/graphql-response+json; charset=windows-1252"];
+            let label = labels[(vcore::report::hash_str(text) % labels.len() as u64) as usize].to_string();
+            Play::Reply { code: *code, content_type: label, body: text.clone().into_bytes() }
+        }
+        Beh::Garbage { text } if text == INVALID_UTF8_MARKER => Play::Reply { code: 200, content_type: ct, body: b"{\"data\":{\"name\":\"caf\xe9 \xff\xfe\"}}".to_vec() },
         Beh::Garbage { text } => Play::Reply { code: 200, content_type: ct, body: text.clone().into_bytes() },
         Beh::Status { code, body, json } => Play::Reply {
             code: *code,
